@@ -21,6 +21,7 @@ import itertools
 from typing import Any, Callable
 
 from aiormq.abc import DeliveredMessage
+from aiormq.exceptions import ChannelInvalidStateError
 from pamqp import commands as spec
 from pamqp.header import ContentHeader
 
@@ -232,10 +233,10 @@ class Channel:
     # -- client side (aiormq surface)
     async def _lat(self) -> None:
         if self.conn.dead or self.is_closed:
-            raise ConnectionError("channel is closed")
+            raise ChannelInvalidStateError("channel is closed")
         await asyncio.sleep(self.conn.lat())
         if self.conn.dead or self.is_closed:
-            raise ConnectionError("channel is closed")
+            raise ChannelInvalidStateError("channel is closed")
 
     async def basic_publish(self, body: bytes, *, exchange: str = "", routing_key: str = "", properties: Any = None,
                             mandatory: bool = False, immediate: bool = False, timeout: Any = None, wait: bool = True) -> Any:
